@@ -214,9 +214,13 @@ C04ObjLeafs ==
                                          <<"b", ObjectS("B", <<Prop("b", StringS(None, None, None), FALSE)>>, "map", FALSE)>> >>),
       OneOfS("int", "type", TRUE, << <<1, ObjectS("A", <<Prop("a", IntS(Some(1), Some(2), None), TRUE), Prop("type", IntS(None, None, None), TRUE)>>, "map", FALSE)>> >>),
       OneOfS("string", "type", FALSE, << <<"a", ObjectS("A", <<Prop("a", IntS(Some(1), Some(2), None), TRUE)>>, "sub", FALSE)>> >>),
-      ScopeS("R", << ObjectS("R", << Prop("a", IntS(Some(1), Some(2), None), TRUE), Prop("n", RefS("R"), FALSE) >>, "map", FALSE) >>),
-      ScopeS("A", << ObjectS("A", << Prop("n", RefS("A"), FALSE) >>, "map", FALSE) >>),
+      ScopeS("R", << ObjectS("R", << Prop("a", IntS(Some(1), Some(2), None), TRUE), Prop("n", RefS("R"), FALSE) >>, "map", FALSE) >>) }
+\* single-property self-references (the inline-shorthand loop): a small value set, at the root and nested
+C04LoopLeafs ==
+    { ScopeS("A", << ObjectS("A", << Prop("n", RefS("A"), FALSE) >>, "map", FALSE) >>),
       ScopeS("A", << ObjectS("A", << Prop("n", RefS("B"), FALSE) >>, "map", FALSE), ObjectS("B", << Prop("n", RefS("A"), TRUE) >>, "map", FALSE) >>) }
+C04LoopValues == { Str("a"), L("any", <<I64(1)>>), M("any_any", <<>>), M("any_any", << <<Str("n"), Nil>> >>),
+                   M("string_any", << <<Str("n"), M("any_any", << <<Str("n"), M("any_any", <<>>)>> >>)>> >>) }
 C04Leafs ==
     { IntS(Some(1), Some(2), None), IntS(None, None, Some("sec")), FloatS(Some(2), Some(4), None),
       StringS(Some(1), Some(2), Some("lower")), BoolS, PatternS, EnumIntS(<<1, 2>>, None),
@@ -427,7 +431,7 @@ SelfScope(layout) ==
 LoopScope == ScopeS("A", << ObjectS("A", << Prop("n", RefS("A"), FALSE) >>, "map", FALSE) >>)
 LoopScope2 == ScopeS("A", << ObjectS("A", << Prop("n", RefS("B"), FALSE) >>, "map", FALSE), ObjectS("B", << Prop("n", RefS("A"), TRUE) >>, "map", FALSE) >>)
 RefScopes ==
-    { SelfScope("map"), LoopScope, LoopScope2 }
+    { SelfScope("map"), LoopScope }      \* (LoopScope2 and the nested positions: C04 universe)
     \cup { ScopeS("R", << ObjectS("R", << Prop("a", TA, TRUE), Prop("n", RefS("N"), FALSE) >>, "map", FALSE),
                           ObjectS("N", << PropS("b", TB, FALSE, <<>>, <<>>, <<>>, Some(DefB), FALSE, FALSE) >>, "map", FALSE) >>),
            ScopeS("R", << ObjectS("R", << Prop("u", OneOfS("string", "type", FALSE, << <<"a", RefS("A")>>, <<"b", RefS("R")>> >>), FALSE) >>, "map", FALSE),
@@ -446,7 +450,7 @@ RefRawArgs ==
               M("any_any", << <<Str("l"), L("any", << M("any_any", << <<Str("a"), I64(1)>> >>), M("any_any", << <<Str("a"), I64(3)>> >>) >>)>> >>),
               M("any_any", << <<Str("l"), L("any", << M("any_any", << <<Str("a"), I64(1)>> >>) >>)>> >>),
               \* non-map values at the root and nested (the shorthand loop), and proper nesting of the loop scopes
-              Str("a"), Nil, L("any", <<I64(1)>>), B(TRUE), M("any_any", << <<Str("n"), I64(1)>> >>), M("any_any", << <<Str("n"), L("any", <<>>)>> >>),
+              Str("a"), L("any", <<I64(1)>>), M("any_any", << <<Str("n"), I64(1)>> >>),
               M("any_any", << <<Str("n"), M("any_any", <<>>)>> >>), M("any_any", << <<Str("n"), M("any_any", << <<Str("n"), M("any_any", <<>>)>> >>)>> >>),
               M("any_any", << <<Str("n"), M("any_any", << <<Str("n"), Str("a")>> >>)>> >>) }
 
@@ -486,9 +490,12 @@ InitC02 ==
     \/ \E s \in DeepSchemas : \E x \in DeepRaw(s) : vec = Vec(s, "unser", x)
 
 InitC04 ==
-    \E leaf \in C04Leafs : \E x \in C04Values : \E p \in Positions(leaf, x) :
-        \/ \E op \in {"valid", "ser"} : vec = Vec(p[1], op, p[2])
-        \/ Decodable(x) /\ \E op \in {"unser", "compat"} : vec = Vec(p[1], op, p[2])
+    \/ \E leaf \in C04Leafs : \E x \in C04Values : \E p \in Positions(leaf, x) :
+          \/ \E op \in {"valid", "ser"} : vec = Vec(p[1], op, p[2])
+          \/ Decodable(x) /\ \E op \in {"unser", "compat"} : vec = Vec(p[1], op, p[2])
+    \/ \E leaf \in C04LoopLeafs : \E x \in C04LoopValues :
+          \E p \in { <<leaf, x>>, <<ListS(leaf, None, None, FALSE), L("any", <<x>>)>> } :
+              \E op \in {"unser", "compat", "valid", "ser"} : vec = Vec(p[1], op, p[2])
 
 DisSet == IF Deep THEN BOOLEAN ELSE {FALSE}
 C03Objects ==
@@ -510,7 +517,7 @@ InitC03 ==
     \/ \E s \in OneOfs \cup OneOfStruct :
           \/ \E x \in OneOfRawArgs : \E op \in {"unser", "compat"} : vec = Vec(s, op, x)
           \/ \E x \in OneOfNatArgs : \E op \in {"valid", "ser"} : vec = Vec(s, op, x)
-    \/ \E s \in RefScopes : \E x \in RefRawArgs : \E op \in {"unser", "compat"} : vec = Vec(s, op, x)
+    \/ \E s \in RefScopes : \E x \in RefRawArgs : \E op \in {"unser", "compat"} : (s = LoopScope => op = "unser") /\ vec = Vec(s, op, x)
     \/ \E x \in OneOfAnyArgs : \E op \in {"unser", "valid", "ser", "compat"} : vec = Vec(OneOfAny, op, x)
 
 \* ------------------------------------------------------------------ C01: chained round trip
